@@ -17,7 +17,7 @@ EXPLANATION = (
     "cannot fingerprint equal by construction; (R3) accounting in Replica::sync_process_message: num_recv is increased by the "
     "message's value count before processing, num_sent by the reply's value count exactly on the Some(reply) edge, "
     "heads_received is updated from every incoming value; (R4) admission/pruning and prefix bounds (shared with C02.R1-R5, "
-    "because reconciliation applies entries through the same put). NOT decided: the termination bound, pivot arithmetic / split "
+    "because reconciliation applies entries through the same put). (R6) what local authoring signs is what remote validation accepts (shared with C03.R9). NOT decided: the termination bound, pivot arithmetic / split "
     "coverage, equality of the final sets, emptiness of a second session (value-level over all states)."
 )
 ASSUMPTIONS = ["Meyer's range-based set reconciliation algorithm is correct when its comparisons are as specified", "blake3 collision resistance"]
@@ -543,9 +543,18 @@ def r5(ctx):
     ctx.check(oke, "C01.R5", PM, "storage-error-reported", detail, pm.sp)
     ctx.floor("C01.R5", 6)
 
+def r6(ctx):
+    """convergence needs that what one side authors is acceptable to the other (shared with C03.R9): an entry held locally but
+    dropped by every peer's validation makes the two replicas differ after every session"""
+    from . import C03
+    C03.local_authoring(ctx, "C01.R6")
+    ctx.floor("C01.R6", 5)
+
+
 def run(ctx):
     ctx.run_rule("C01.R1", r1)
     ctx.run_rule("C01.R2", r2)
     ctx.run_rule("C01.R3", r3)
     ctx.run_rule("C01.R4", r4)
     ctx.run_rule("C01.R5", r5)
+    ctx.run_rule("C01.R6", r6)
